@@ -100,7 +100,7 @@ def b1(run: Run, prog: Program, cy: CyProgram):
         if re.search(r"with\s+cython\.boundscheck\(\s*False", m.source):
             run.add("B1", f"{m.name}/with-boundscheck", f"{m.relpath}:1",
                     f"{m.relpath} contains `with cython.boundscheck(False)`")
-    run.floor("kernels scanned for directive overrides", n_funcs, 60)
+    run.floor("kernels scanned for directive overrides", n_funcs, 60, hard=True)
 
 
 # ---------------------------------------------------------------------------
@@ -386,7 +386,7 @@ def b2_b3_shapes(run: Run, prog: Program, cy: CyProgram, cfuncs, sites, handoffs
                         shp[cn] = (None, "param", x.a[0])
         shapes[h.cname] = shp
         h.w2c = w2c
-    run.floor("raw pointer hand-offs", n_ptr, 20)
+    run.floor("raw pointer hand-offs", n_ptr, 20, hard=True)
     return shapes
 
 
@@ -830,7 +830,7 @@ def b5_b6(run: Run, prog, cy, cfuncs, shapes, handoffs, sites):
                     f"`{arr}` has {size} elements (shape {[str(d) for d in dims]}): not "
                     f"provably inside the buffer for all sizes (e.g. when "
                     f"{_witness(size, hi)})")
-    run.floor("distinct C memory accesses analysed", n_acc, 60)
+    run.floor("distinct C memory accesses analysed", n_acc, 60, hard=True)
 
 
 def _guarded_positive(h) -> set:
@@ -1196,7 +1196,7 @@ def check(run: Run, prog: Program, cy: CyProgram, sites):
     b1(run, prog, cy)
     handoffs = _handoffs(cy)
     cfuncs = _c_functions(run, cy)
-    run.floor("C functions", len(cfuncs), 6)
+    run.floor("C functions", len(cfuncs), 6, hard=True)
     shapes = b2_b3_shapes(run, prog, cy, cfuncs, sites, handoffs)
     b5_b6(run, prog, cy, cfuncs, shapes, handoffs, sites)
     b7(run, cy)
